@@ -189,6 +189,10 @@ func run(c *lib.Ctx) error {
 	var items []item
 	for i := 0; i < npipes && c.Violations() < 3; i++ {
 		pr := genPipeline(rng, 100+i, g)
+		if i%5 == 1 {
+			pr = genChain(rng, 100+i) // the reader-gone chain, see gen.go
+			c.Inc("v_readergone_chains", 1)
+		}
 		res := runPipeline(ev, pr, wd)
 		c.AddEvals(1)
 		if res.infra != nil {
@@ -377,9 +381,9 @@ func handleHang(c *lib.Ctx, ev interface{}, pr *pipeRun, res runResult, wd watch
 // is replayed on a real gated pipeline.
 func runG(c *lib.Ctx, cp int, wd watchdog) error {
 	type gcfg struct{ n, level, mcap, sim int } // sim > 0: that many random behaviours (-simulate) instead of all
-	cfgs := []gcfg{{2, 1, 1, 0}}
+	cfgs := []gcfg{{2, 1, 1, 0}, {3, 3, 1, 0}}
 	if c.Thorough() {
-		cfgs = []gcfg{{2, 2, 1, 0}, {2, 1, 2, 0}, {3, 1, 1, 2500}}
+		cfgs = []gcfg{{2, 2, 1, 0}, {2, 1, 2, 0}, {3, 3, 1, 0}, {3, 3, 2, 0}, {3, 1, 1, 2500}}
 	}
 	ev := newEvaler()
 	id := 500000
@@ -437,17 +441,29 @@ func runG(c *lib.Ctx, cp int, wd watchdog) error {
 				if !v.hang.Settled {
 					return lib.Infra("gated replay: no completion at step %d but the goroutines are not all parked: %v", v.steps+1, v.hang.Signature)
 				}
-				id++
-				v2 := replayBehaviour(ev, id, gc, gcf.mcap, cp, wd)
-				ev = newEvaler()
+				// re-run; a re-run that leaves the schedule earlier at a select race (det = FALSE) says nothing: try again
+				var v2 gverdict
+				for try := 0; try < 8; try++ {
+					id++
+					v2 = replayBehaviour(ev, id, gc, gcf.mcap, cp, wd)
+					ev = newEvaler()
+					if !(v2.diverged && v2.steps < v.steps) {
+						break
+					}
+				}
 				if v2.hang == nil || !v2.hang.Settled || v2.steps != v.steps {
-					return lib.Infra("gated replay: hang at step %d did not reproduce", v.steps+1)
+					b, _ := json.Marshal(gc)
+					return lib.Infra("gated replay: hang at step %d (%v) did not reproduce: second run hang=%v steps=%d mismatch=%q diverged=%v infra=%v\nbehaviour: %s", v.steps+1, v.hang.Signature, v2.hang != nil, v2.steps, v2.mismatch, v2.diverged, v2.infra, b)
 				}
 				c.Reject("gated:hang", fmt.Sprintf("step %d of a behaviour of GPipeline never completes in the real pipeline (all goroutines parked: %v), reproducibly: NoDeadlock violated", v.steps+1, v.hang.Signature),
 					map[string]any{"kind": "gated", "behaviour": gc, "cap": gcf.mcap, "step": v.steps + 1})
 				continue
 			}
 			c.AddTraces(1)
+			if v.abandoned {
+				ev = newEvaler()
+				c.Inc("g_abandoned_after_divergence", 1)
+			}
 			if v.diverged {
 				diverged++
 				continue
